@@ -28,27 +28,25 @@ def sh(cmd, cwd=None, env=None, timeout=3600):
 
 
 def confirm(mdir):
+    """demo.rs is tried in the debug profile first; a change that only shows without debug
+    assertions is confirmed with `--release` (recorded as demo_profile)."""
     mdir = os.path.abspath(mdir)
-    wt = "/tmp/seeded-confirm-%d" % os.getpid()
+    wt = "/tmp/seeded-confirm-%s-%d" % (os.path.basename(mdir.rstrip("/")), os.getpid())
     res = dict(applies=False, tests_pass_with_patch=False, demo_fails_with_patch=False, demo_passes_without_patch=False)
     rc, out = sh(["git", "-C", "/repo", "worktree", "add", "-q", "--detach", wt, "HEAD"])
     if rc != 0:
         print(out)
         return res
     env = dict(ENV, CARGO_TARGET_DIR=os.path.join(wt, "target"))
+
+    def demo_fails(out, rc):
+        return rc != 0 and "could not compile" not in out and ("test result: FAILED" in out or "signal" in out or "process didn't exit successfully" in out)
+
     try:
         os.makedirs(os.path.join(wt, "tests"), exist_ok=True)
         demo = os.path.join(wt, "tests", "demo.rs")
         with open(os.path.join(mdir, "demo.rs")) as f:
             src = f.read()
-        # without the patch: demo passes
-        with open(demo, "w") as f:
-            f.write(src)
-        rc, out = sh(["cargo", "test", "--offline", "--test", "demo"], cwd=wt, env=env)
-        res["demo_passes_without_patch"] = rc == 0
-        if rc != 0:
-            res["demo_without_patch_output"] = out[-1500:]
-        os.remove(demo)
         rc, out = sh(["git", "apply", os.path.join(mdir, "patch.diff")], cwd=wt)
         res["applies"] = rc == 0
         if rc != 0:
@@ -64,13 +62,27 @@ def confirm(mdir):
         res["doc_tests"] = m.group(0) if m else out[-600:]
         with open(demo, "w") as f:
             f.write(src)
+        profile = []
         rc, out = sh(["cargo", "test", "--offline", "--test", "demo"], cwd=wt, env=env)
-        # a failing assertion, or the test process dying (abort from an unsafe-precondition check)
-        res["demo_fails_with_patch"] = rc != 0 and "could not compile" not in out and ("test result: FAILED" in out or "signal" in out or "process didn't exit successfully" in out)
+        if not demo_fails(out, rc):
+            profile = ["--release"]
+            rc, out = sh(["cargo", "test", "--offline", "--release", "--test", "demo"], cwd=wt, env=env)
+        res["demo_profile"] = "release" if profile else "debug"
+        res["demo_fails_with_patch"] = demo_fails(out, rc)
         if rc == 0:
             res["demo_with_patch_output"] = out[-800:]
+        # without the patch: demo passes (same profile)
+        os.remove(demo)
+        sh(["git", "checkout", "--", "."], cwd=wt)
+        with open(demo, "w") as f:
+            f.write(src)
+        rc, out = sh(["cargo", "test", "--offline"] + profile + ["--test", "demo"], cwd=wt, env=env)
+        res["demo_passes_without_patch"] = rc == 0
+        if rc != 0:
+            res["demo_without_patch_output"] = out[-1500:]
     finally:
         sh(["git", "-C", "/repo", "worktree", "remove", "--force", wt])
+        sh(["rm", "-rf", wt])
     return res
 
 
@@ -171,6 +183,31 @@ def main():
         print(json.dumps(res, indent=1))
         print("CONFIRMED" if ok else "NOT-CONFIRMED")
         sys.exit(0 if ok else 1)
+    if cmd == "confirm-all":
+        # seeded.py confirm-all [--par N] name-prefix...
+        import concurrent.futures
+        args = sys.argv[2:]
+        par = 4
+        if "--par" in args:
+            par = int(args[args.index("--par") + 1])
+            del args[args.index("--par"):args.index("--par") + 2]
+        root = os.path.join(VERIF, "seeded")
+        todo = [d for d in sorted(os.listdir(root)) if os.path.isfile(os.path.join(root, d, "patch.diff")) and any(d.startswith(a) or d.endswith(a) for a in args)]
+
+        def one(d):
+            return d, confirm(os.path.join(root, d))
+
+        bad = 0
+        with concurrent.futures.ThreadPoolExecutor(max_workers=par) as ex:
+            for d, res in ex.map(one, todo):
+                mdir = os.path.join(root, d)
+                meta = load_meta(mdir)
+                meta["confirmed"] = res
+                save_meta(mdir, meta)
+                ok = res["applies"] and res["tests_pass_with_patch"] and res["demo_fails_with_patch"] and res["demo_passes_without_patch"]
+                bad += 0 if ok else 1
+                print(d, "CONFIRMED" if ok else "NOT-CONFIRMED", res.get("demo_profile"), flush=True)
+        sys.exit(1 if bad else 0)
     if cmd in ("detect", "detect-scratch"):
         mdir = sys.argv[2]
         ids = sys.argv[3:] or IDS
